@@ -341,6 +341,34 @@ def s_(ck: Check) -> None:
                   f"`{text(c)[:60]}` inspects how a formula is written: two logically equivalent update functions (`x` and "
                   f"`x | x`) are then treated differently, so the result depends on the presentation of the network",
                   key=f"syntax inspection {c.func.attr} in {fm.f.name}")
+        # ... nor its syntactic support when something is decided on it: `f.as_expression().support_set() != {var}` (the
+        # support of `(b & c) | (b & !c)` mentions c); building a BDD context from the support decides nothing
+        for c in own_walk(fm.f.node):
+            if isinstance(c, ast.Call) and isinstance(c.func, ast.Attribute) and c.func.attr == "support_set":
+                try:
+                    rv_ = fm.deref(c.func.value, fm.cfgn(c)) if isinstance(c.func.value, ast.Name) else c.func.value
+                except AnalysisError:
+                    rv_ = c.func.value
+                if not (isinstance(rv_, ast.Call) and callee_name(rv_) == "as_expression"):
+                    continue
+                x_, decided = c, False
+                while x_ is not None and not isinstance(x_, ast.stmt):
+                    up_ = fm.f.parents.get(x_)
+                    if isinstance(up_, (ast.Compare, ast.BoolOp)) or (isinstance(up_, (ast.If, ast.While, ast.IfExp)) and up_.test is x_) \
+                            or (isinstance(up_, ast.Call) and callee_name(up_) in ("len", "any", "all")):
+                        decided = True
+                    x_ = up_
+                st_ = fm.f.stmt_of(c)
+                if isinstance(st_, ast.Assign) and len(st_.targets) == 1 and isinstance(st_.targets[0], ast.Name):
+                    nm_ = st_.targets[0].id
+                    decided = decided or any(isinstance(y_, ast.Name) and y_.id == nm_ and isinstance(fm.f.parents.get(y_), (ast.Compare, ast.BoolOp))
+                                             for y_ in own_walk(fm.f.node))
+                if decided:
+                    syn.append(c)
+                    ck.ob("S", fm, st_, False,
+                          f"`{text(c)[:60]}` is the support of the formula as written; a decision taken on it treats `b` and "
+                          f"`(b & c) | (b & !c)` differently, so the result depends on the presentation of the network",
+                          key=f"syntactic support in {fm.f.name}")
         # ... nor its text: str()/repr()/format of an update function (outside debug prints) is the formula as written
         for c in own_walk(fm.f.node):
             txt_of = None
